@@ -79,6 +79,9 @@ fn dispatch(cmd: &str, opts: &Opts) -> i32 {
         "C05" => props::c05::run(opts),
         "C07" => props::c07::run(opts),
         "C15" => props::c15::run(opts),
+        "C18" => props::c18::run(opts),
+        "C19" => props::c19::run(opts),
+        "C20" => props::c20::run(opts),
         "C12" => props::c12::run(opts),
         "C14" => props::c14::run(opts),
         _ => {
